@@ -94,16 +94,39 @@ def monotone_case(ctx, rng):
     return None, None
 
 
-def closed_form_case(ctx, rng):
+def own_D(stack, plyts, lp):
+    """bending stiffness of a cross-ply laminate by classical lamination theory, computed here (independent of compmech.composite)"""
+    e1, e2, nu12, g12 = lp[0], lp[1], lp[2], lp[3]
+    nu21 = nu12 * e2 / e1
+    den = 1 - nu12 * nu21
+    q = dict(q11=e1 / den, q12=nu12 * e2 / den, q22=e2 / den, q66=g12)
+    D = np.zeros((3, 3))
+    z = -sum(plyts) / 2.
+    for ang, t in zip(stack, plyts):
+        q11, q22 = (q['q11'], q['q22']) if ang % 180 == 0 else (q['q22'], q['q11'])
+        Qb = np.array([[q11, q['q12'], 0.], [q['q12'], q22, 0.], [0., 0., q['q66']]])
+        D += Qb * ((z + t) ** 3 - z ** 3) / 3.
+        z += t
+    return D
+
+
+def closed_form_case(ctx, rng, forced=None):
     """simply supported, specially orthotropic rectangular plate"""
     from compmech.panel import Panel
     a = rng.uniform(0.3, 3.)
     b = 1.
-    stack = rng.choice([[0], [0, 90, 90, 0], [90, 0, 0, 90]])
+    stack = rng.choice([[0], [0, 90, 90, 0], [90, 0, 0, 90], [0, 90, 0]])
     lp = rng.choice([(142.5e9, 8.7e9, 0.28, 5.1e9, 5.1e9, 5.1e9), (71e9, 71e9, 0.33, 26.7e9, 26.7e9, 26.7e9)])
     mn = rng.choice([6, 8, 10])
     ratio = rng.choice([0., 0.5, 1.])
-    p = Panel(a=a, b=b, stack=stack, plyt=1e-3, laminaprop=lp, mu=1500., m=mn, n=mn)
+    # equal plies, or a mid-plane symmetric stack of UNEQUAL plies
+    plyts = [1e-3] * len(stack)
+    if len(stack) > 1 and rng.random() < 0.5:
+        half = [rng.choice([0.5e-3, 1e-3, 2.5e-3]) for _ in range((len(stack) + 1) // 2)]
+        plyts = half + half[:len(stack) // 2][::-1]
+    if forced:
+        a, stack, plyts, mn = forced
+    p = Panel(a=a, b=b, stack=stack, plyts=plyts, laminaprops=[lp] * len(stack), mu=1500., m=mn, n=mn)
     p.model = 'plate_clt_donnell_bardell'
     for f in 'uv':      # in-plane free (membrane pre-stress is prescribed), w simply supported (defaults)
         for e in ('1t', '1r', '2t', '2r'):
@@ -115,16 +138,14 @@ def closed_form_case(ctx, rng):
     K = pc.quiet(p.calc_k0, silent=True).toarray()
     KG = pc.quiet(p.calc_kG0, silent=True).toarray()
     M = pc.quiet(p.calc_kM, silent=True).toarray()
-    D = p.lam.D
-    if abs(D[0, 2]) > 1e-9 * D[0, 0] or np.abs(p.lam.B).max() > 1e-9 * p.lam.A[0, 0] * 1e-3:
-        return None, None
+    D = own_D(stack, plyts, lp)      # the closed form is evaluated with THIS laminate theory, not with the package's
     best = min(math.pi ** 2 * (D[0, 0] * (i / a) ** 4 + 2 * (D[0, 1] + 2 * D[2, 2]) * (i / a) ** 2 * (j / b) ** 2 + D[1, 1] * (j / b) ** 4)
                / ((i / a) ** 2 + ratio * (j / b) ** 2) for i in range(1, 12) for j in range(1, 12))
     try:
         lam = lowest_buckling(K, KG, 1)[0]
     except (np.linalg.LinAlgError, ValueError, IndexError):
         return None, None
-    desc = dict(a=a, stack=stack, mn=mn, ratio=ratio, ritz=float(lam), closed_form=float(best))
+    desc = dict(a=a, stack=stack, plyts=plyts, mn=mn, ratio=ratio, ritz=float(lam), closed_form=float(best))
     if lam < best * (1 - 1e-9):
         return desc, 'Ritz buckling load %.9e is BELOW the closed-form value %.9e' % (lam, best)
     if 0.5 <= a <= 2. and lam > best * (1 + 5e-2):
@@ -155,8 +176,9 @@ def correspondence(ctx):
         if bad:
             ctx.violation('C15 fails on the implementation: ' + bad, dict(case=c, part='monotone'))
             return
-    for t in range(ctx.scale(6, 60)):
-        c, bad = closed_form_case(ctx, rng)
+    forced = [(1.3, [0, 90, 90, 0], [2.5e-3, 0.5e-3, 0.5e-3, 2.5e-3], 8), (0.8, [90, 0, 90], [0.5e-3, 2.5e-3, 0.5e-3], 8)]
+    for t in range(ctx.scale(6, 60) + len(forced)):
+        c, bad = closed_form_case(ctx, rng, forced=forced[t] if t < len(forced) else None)
         ctx.evaluations += 1
         dist['closed_form'] += 1
         if c is None and bad is None:
